@@ -216,7 +216,7 @@ func run(c *fw.Ctx) {
 	rec(0)
 	// E2b: many scanner errors inside ONE token (the error list has a cap; the first token is scanned by the parser's
 	// constructor, later ones inside ParseFile)
-	c.Family("E2b:bad-runs", "token opener {\", `, ', //, /*, none} x run of 1..13, 20, 100 bytes of {NUL, 0xff, 0x80, BOM} x closed or not x first token or after `a := `")
+	c.Family("E2b:bad-runs", "token opener {\", `, ', //, /*, none} x run of 1..13, 20, 100 bytes of {NUL, 0xff, 0x80, BOM} x closed or not x first token or after `a := `; and 1..40 bad bytes each on its own line inside a raw string, a block comment or a run of line comments")
 	for _, open := range []struct{ o, cl string }{{"\"", "\""}, {"`", "`"}, {"'", "'"}, {"//", "\n"}, {"/*", "*/"}, {"", ""}} {
 		for _, bad := range []string{"\x00", "\xff", "\x80", "\xef\xbb\xbf"} {
 			for _, k := range []int{1, 2, 3, 4, 5, 6, 7, 8, 9, 10, 11, 12, 13, 20, 100} {
@@ -230,6 +230,22 @@ func run(c *fw.Ctx) {
 							src += open.cl
 						}
 						e.try(fmt.Sprintf("badrun:%q", src), src, basic, false)
+					}
+				}
+			}
+		}
+	}
+	// ... and the same with every bad byte on a line of its own (error lists that keep one entry per line)
+	for _, open := range []struct{ o, cl, unitPre string }{{"`", "`", ""}, {"/*", "*/", ""}, {"", "", "//"}, {"", "", "// c"}} {
+		for _, bad := range []string{"\x00", "\xff", "\x80"} {
+			for _, k := range []int{1, 2, 9, 10, 11, 12, 13, 14, 20, 40} {
+				for _, pre := range []string{"", "a := 1\n", "\n"} {
+					for _, tail := range []string{"", "a := 1\n"} {
+						if !c.Next() {
+							continue
+						}
+						src := pre + open.o + strings.Repeat(open.unitPre+bad+"\n", k) + open.cl + tail
+						e.try(fmt.Sprintf("badlines:%q", src), src, basic, false)
 					}
 				}
 			}
